@@ -15,8 +15,8 @@ Definition chk (c : N * bytes * list record * option (N * N * N)) : bool :=
 
 (* ---- classified CSV / CSV-lite / PPRINT / XTAB readers (C18/ModelReaders.v) against `mlr --iFMT [options] put -q '<hex dump>'`:
    on success the records, on failure the error class with the numbers of the message *)
-From Miller Require Import C01.Model C18.ModelReaders.
-Inductive rdr := RCsv (o : copts) | RLite (o : lopts) | RXtab (ips : bytes) (dedupe : bool).
+From Miller Require Import C01.Model C18.ModelReaders C18.ModelBar.
+Inductive rdr := RCsv (o : copts) | RLite (o : lopts) | RXtab (ips : bytes) (dedupe : bool) | RBar (o : bopts).
 Definition qerr_eqb (a b : qerr) : bool := match a, b with BareQuote, BareQuote | BadQuote, BadQuote => true | _, _ => false end.
 Definition cerr_eqb (a b : cerr) : bool :=
   match a, b with
@@ -27,7 +27,7 @@ Definition cerr_eqb (a b : cerr) : bool :=
   | _, _ => false
   end.
 Definition run_rdr (r : rdr) (s : bytes) : cres :=
-  match r with RCsv o => read_csv_c o s | RLite o => read_lite_c o s | RXtab ips d => read_xtab_c ips d s end.
+  match r with RCsv o => read_csv_c o s | RLite o => read_lite_c o s | RXtab ips d => read_xtab_c ips d s | RBar o => read_bar_c o s end.
 Definition chk2 (c : rdr * bytes * list record * option cerr) : bool :=
   let '(r, s, recs, e) := c in
   match run_rdr r s, e with
@@ -47,4 +47,23 @@ Definition class_of (c : rdr * bytes * list record * option cerr) : N :=
   match run_rdr r s with
   | COk _ => 0%N | CErr EDelim => 1%N | CErr (EParse BareQuote) => 2%N | CErr (EParse BadQuote) => 3%N
   | CErr (EMismatch _ _ _) => 4%N | CErr EXtabInternal => 5%N
+  end.
+
+(* ---- JSON record-reader layer (C18/ModelJson.v) against `mlr --ijson --ojsonl cat` on documents GENERATED FROM an abstract
+   stream of top-level values: on success the "id" fields of the records read, in order; on failure the kind named in
+   "valid but unmillerable JSON ... got <kind>" (Some (Some kind)) or any other `mlr:` error (Some None = decoder error) *)
+From Miller Require Import C18.ModelJson.
+Fixpoint nlist_eqb (a b : list N) : bool :=
+  match a, b with
+  | [], [] => true
+  | x :: a', y :: b' => N.eqb x y && nlist_eqb a' b'
+  | _, _ => false
+  end.
+Definition chkj (c : list jtop * list N * option (option N)) : bool :=
+  let '(vs, ids, e) := c in
+  match json_layer vs, e with
+  | JOk l, None => nlist_eqb l ids
+  | JErr (JUnmillerable k), Some (Some k') => N.eqb k k'
+  | JErr JDecode, Some None => true
+  | _, _ => false
   end.
